@@ -29,6 +29,7 @@ type c15Dep struct {
 }
 
 type c15Svc struct {
+	Name     string            `json:"name,omitempty"` // ServiceConfig.Name; empty = the map key
 	Image    string            `json:"image"`
 	Profiles []string          `json:"profiles"`
 	Deps     map[string]c15Dep `json:"deps"`
@@ -37,6 +38,7 @@ type c15Svc struct {
 	Secrets  []string          `json:"secrets"`
 	Build    *[]string         `json:"build"`
 	Configs  []string          `json:"configs"`
+	Env      map[string]*string `json:"env"` // environment; null = listed without a value
 }
 
 type c15State struct {
@@ -47,6 +49,8 @@ type c15State struct {
 	Volumes  map[string]string `json:"volumes"`
 	Secrets  map[string]string `json:"secrets"`
 	Configs  map[string]string `json:"configs"`
+	// Project.Environment: what WithServicesEnabled resolves unset service variables against
+	Environment map[string]string `json:"environment"`
 }
 
 type c15Op struct {
@@ -72,6 +76,9 @@ func nn(l []string) []string {
 
 func c15BuildSvc(name string, s c15Svc) types.ServiceConfig {
 	sc := types.ServiceConfig{Name: name, Image: s.Image}
+	if s.Name != "" {
+		sc.Name = s.Name
+	}
 	if len(s.Profiles) > 0 {
 		sc.Profiles = append([]string{}, s.Profiles...)
 	}
@@ -106,11 +113,25 @@ func c15BuildSvc(name string, s c15Svc) types.ServiceConfig {
 	for _, x := range s.Configs {
 		sc.Configs = append(sc.Configs, types.ServiceConfigObjConfig{Source: x})
 	}
+	if len(s.Env) > 0 {
+		sc.Environment = types.MappingWithEquals{}
+		for k, v := range s.Env {
+			if v == nil {
+				sc.Environment[k] = nil
+			} else {
+				x := *v
+				sc.Environment[k] = &x
+			}
+		}
+	}
 	return sc
 }
 
 func c15Build(st c15State) *types.Project {
 	p := &types.Project{Name: "c15", WorkingDir: "/w", Services: types.Services{}, Environment: types.Mapping{}}
+	for k, v := range st.Environment {
+		p.Environment[k] = v
+	}
 	for k, s := range st.Services {
 		p.Services[k] = c15BuildSvc(k, s)
 	}
@@ -143,7 +164,7 @@ func c15Build(st c15State) *types.Project {
 }
 
 func c15ExtractSvc(sc types.ServiceConfig) c15Svc {
-	s := c15Svc{Image: sc.Image, Profiles: nn(append([]string{}, sc.Profiles...)), Deps: map[string]c15Dep{},
+	s := c15Svc{Name: sc.Name, Image: sc.Image, Profiles: nn(append([]string{}, sc.Profiles...)), Deps: map[string]c15Dep{},
 		Nets: []string{}, Vols: [][2]string{}, Secrets: []string{}, Configs: []string{}}
 	for k, d := range sc.DependsOn {
 		s.Deps[k] = c15Dep{Required: d.Required, Cond: d.Condition}
@@ -168,13 +189,22 @@ func c15ExtractSvc(sc types.ServiceConfig) c15Svc {
 	for _, x := range sc.Configs {
 		s.Configs = append(s.Configs, x.Source)
 	}
+	s.Env = map[string]*string{}
+	for k, v := range sc.Environment {
+		if v == nil {
+			s.Env[k] = nil
+		} else {
+			x := *v
+			s.Env[k] = &x
+		}
+	}
 	return s
 }
 
 // c15Extract is the observation: Services, DisabledServices, Profiles, depends_on and the top-level resources.
 func c15Extract(p *types.Project) c15State {
 	st := c15State{Services: map[string]c15Svc{}, Disabled: map[string]c15Svc{}, Profiles: nn(append([]string{}, p.Profiles...)),
-		Networks: map[string]string{}, Volumes: map[string]string{}, Secrets: map[string]string{}, Configs: map[string]string{}}
+		Networks: map[string]string{}, Volumes: map[string]string{}, Secrets: map[string]string{}, Configs: map[string]string{}, Environment: map[string]string{}}
 	for k, s := range p.Services {
 		st.Services[k] = c15ExtractSvc(s)
 	}
@@ -192,6 +222,9 @@ func c15Extract(p *types.Project) c15State {
 	}
 	for k, v := range p.Configs {
 		st.Configs[k] = v.Name
+	}
+	for k, v := range p.Environment {
+		st.Environment[k] = v
 	}
 	return st
 }
@@ -405,7 +438,7 @@ func c15JudgeHist(args, real, drv json.RawMessage) *core.Verdict {
 	// the property first (the spec decided on the real before/after pairs), then the tie
 	for i, s := range d.Steps {
 		c15Steps.Add(1)
-		if s.Via == "order" {
+		if s.Via == "pre-fix-order" {
 			c15ViaOrder.Add(1)
 		}
 		if r.Steps[i].Err != "" {
@@ -421,7 +454,11 @@ func c15JudgeHist(args, real, drv json.RawMessage) *core.Verdict {
 	}
 	for i, s := range d.Steps {
 		if !s.Agree {
-			return core.Disagree(fmt.Sprintf("step %d (%s %v %s): model ≠ real", i, a.Ops[i].Op, a.Ops[i].Names, a.Ops[i].Pol))
+			what := "model ≠ real"
+			if s.Via == "pre-fix-order" {
+				what = "model ≠ real (the result is one the pre-fix, order-dependent WithSelectedServices loop produces)"
+			}
+			return core.Disagree(fmt.Sprintf("step %d (%s %v %s): %s", i, a.Ops[i].Op, a.Ops[i].Names, a.Ops[i].Pol, what))
 		}
 	}
 	return nil
